@@ -85,4 +85,10 @@ var registry = []prop{
 		Thor:   tierCfg{Shards: 16, Scale: 6, TimeoutS: 1800},
 		Assume: []string{"ground-truth rings are simple, outers pairwise disjoint, holes strictly inside their outer and pairwise disjoint, no vertex at (0,0)", "rings are compared as canonical cyclic vertex sequences with exact float equality (coordinates are copied, never computed)"},
 	},
+	{
+		ID: "C17", Pkg: "props/c17", Level: "exploration",
+		Quick:  tierCfg{Shards: 1, Scale: 1, TimeoutS: 300},
+		Thor:   tierCfg{Shards: 16, Scale: 8, TimeoutS: 1800},
+		Assume: []string{"ways reference located nodes or missing nodes only (a node object at exactly lon=0,lat=0 counts as not located)", "area ways are built from simple rings; multipolygon geometry itself is judged by C16, here only its presence/type", "member ways of route/multipolygon/boundary relations may or may not get a feature of their own (at most one)"},
+	},
 }
